@@ -521,6 +521,10 @@ func (ctx *fromJSONSchemaContext) convertObject(s *lib.Schema) (core.ZodSchema, 
 	for key, propSchema := range properties {
 		propZodSchema, err := ctx.convert(propSchema)
 		if err != nil {
+			if ctx.options.StrictMode {
+				// Strict mode reports what it cannot convert instead of dropping the property.
+				return nil, err
+			}
 			continue // Skip on error in this context
 		}
 
@@ -551,6 +555,9 @@ func (ctx *fromJSONSchemaContext) convertObject(s *lib.Schema) (core.ZodSchema, 
 		} else if s.AdditionalProperties.Boolean == nil {
 			// It's a schema - use catchall
 			catchallSchema, err := ctx.convert(s.AdditionalProperties)
+			if err != nil && ctx.options.StrictMode {
+				return nil, err
+			}
 			if err == nil {
 				// The catch-all is only consulted in passthrough mode.
 				result = result.Passthrough().WithCatchall(catchallSchema)
